@@ -328,12 +328,68 @@ def facts_for(st, leaf):
     return [f for f in st.wfacts if leaf_of(f[0]) == leaf]
 
 
+def plain_word_test(m, st, e, const, truth, base):
+    """Fast path: `word == const` on an unmodified block with only earlier `!=` facts about it."""
+    lanes_ = e[1]
+    doms = []
+    for i, lv in enumerate(lanes_):
+        if lv[0] == "int":
+            doms.append({lv[1] & 0xFF})
+        else:
+            tab = TABLES.get(lv[2])
+            doms.append(set(tab[b] & 0xFF for b in mask_vals(st.cells[lv[1]])))
+    want = [lane_of_int(const, i) for i in range(len(lanes_))]
+    excluded = {f[2] for f in base}
+    can_true = const not in excluded and all(w in d for w, d in zip(want, doms))
+    total = 1
+    for d in doms:
+        total *= len(d)
+        if total > len(excluded) + 2:
+            break
+    if total > len(excluded) + 1:
+        can_false = True
+    else:
+        import itertools
+        can_false = False
+        for combo in itertools.product(*doms):
+            x = 0
+            for i, b in enumerate(combo):
+                x |= b << (8 * i)
+            if x != const and x not in excluded:
+                can_false = True
+                break
+    if not can_true and not can_false:
+        raise Violation("infeasible")
+    if not can_false:
+        return mk_bool(truth)
+    if not can_true:
+        return mk_bool(not truth)
+
+    def mk_true(s):
+        for lv, w in zip(lanes_, want):
+            if lv[0] == "cell":
+                tab = TABLES.get(lv[2])
+                mask = 0
+                for b in mask_vals(s.cells[lv[1]]):
+                    if (tab[b] & 0xFF) == w:
+                        mask |= 1 << b
+                s.refine(lv[1], mask)
+        s.wfacts.append((e, "all", const, True))
+
+    def mk_false(s):
+        s.wfacts.append((e, "all", const, False))
+
+    raise Fork([("word-eq", mk_true), ("word-ne", mk_false)], "block comparison")
+
+
 def decide_wtest(m, st, test):
     _, e, lane, const, truth = test
     leaf = leaf_of(e)
     if leaf is None:
         raise Unanalysable("constant SWAR test")
     base = facts_for(st, leaf)
+    if e[0] == "leaf" and lane == "all" and all(f[0] == e and f[1] == "all" and f[3] is False for f in base):
+        return plain_word_test(m, st, e, const, truth, base)
     fy = (e, lane, const, True)
     fn = (e, lane, const, False)
     py = solve(m, st, leaf, base + [fy])
